@@ -289,6 +289,70 @@ def rule_h(repo, chk):
     chk.ob('C04.h', ok, st, 'both the imported modules and their own star imports are accumulated')
 
 
+UNIQUE_BY_NATURE = {'scandir': 'directory entries have distinct names', 'listdir': 'directory entries have distinct names'}
+OUT_OF_SCOPE_PRODUCERS = {'search_in_module': 'feeds Script.search/complete_search (no cursor fragment), not Script.complete'}
+
+
+def _unique_source(func, e, depth=0):
+    """why the iterable `e` cannot hold the same element twice, or None"""
+    if isinstance(e, (ast.Set, ast.SetComp, ast.Dict, ast.DictComp)):
+        return 'a set/dict'
+    if isinstance(e, ast.Call):
+        cn = call_name(e)
+        if cn in ('set', 'frozenset'):
+            return 'set()'
+        if cn in UNIQUE_BY_NATURE:
+            return UNIQUE_BY_NATURE[cn]
+        if cn in ('sorted', 'list', 'tuple', 'reversed', 'iter') and e.args:
+            return _unique_source(func, e.args[0], depth)
+        if cn in ('keys',) and isinstance(e.func, ast.Attribute):
+            return 'dict keys'
+    if isinstance(e, ast.Name) and depth < 3:
+        defs = [s_ for s_ in stmts_in(func, ast.Assign) if any(isinstance(t, ast.Name) and t.id == e.id for t in s_.targets)]
+        if defs and all(_unique_source(func, d.value, depth + 1) for d in defs):
+            return _unique_source(func, defs[0].value, depth + 1)
+    return None
+
+
+def rule_i(repo, chk):
+    chk.clause('C04.i', 'uniqueness at every producer: each place that constructs api Completion objects for Script.complete either tests a '
+                        'seen-set before yielding (filter_names, C04.b) or loops over a source that cannot hold an element twice (a set, '
+                        'sorted(set(..)), a directory listing); the doctest path re-enters Completion.complete')
+    n = 0
+    for modname in ('jedi.api.strings', 'jedi.api.file_name', 'jedi.api.completion'):
+        for q, f in sorted(repo.module(modname).defs.items()):
+            if not isinstance(f, FUNC_TYPES):
+                continue
+            for c in [x for x in own_nodes(f) if isinstance(x, ast.Call) and (repo.resolve(x.func) or '') == 'jedi.api.classes.Completion']:
+                n += 1
+                if f.name in OUT_OF_SCOPE_PRODUCERS:
+                    chk.ob('C04.i', True, c, '%s: %s' % (q, OUT_OF_SCOPE_PRODUCERS[f.name]))
+                    continue
+                # where the object leaves the function: the yield/return that carries it
+                par = getattr(c, '_parent', None)
+                emits = [c]
+                if isinstance(par, ast.Assign) and isinstance(par.targets[0], ast.Name):
+                    v = par.targets[0].id
+                    emits = [y for y in own_nodes(f) if isinstance(y, (ast.Yield, ast.Return)) and isinstance(y.value, ast.Name) and y.value.id == v] or [c]
+                notin = lambda e, pol: pol and isinstance(e, ast.Compare) and len(e.ops) == 1 and isinstance(e.ops[0], ast.NotIn)
+                if all(gate(f, y, notin) is None for y in emits):
+                    chk.ob('C04.i', True, c, 'Completion built in %s only for a key that is not in the seen-set' % q)
+                    continue
+                loops = [p_ for p_ in _parents(c, f) if isinstance(p_, (ast.For, ast.comprehension))]
+                if not loops:
+                    chk.ob('C04.i', True, c, 'Completion built once per call in %s' % q)
+                    continue
+                why = [_unique_source(f, lp.iter) for lp in loops]
+                ok = all(why)
+                chk.ob('C04.i', ok, c, 'Completion objects of %s are built from a duplicate-free source (%s)' % (q, '; '.join(w_ or '?' for w_ in why)),
+                       '' if ok else 'the loop over `%s` can deliver the same element twice and nothing filters it' % short(loops[[bool(x) for x in why].index(False)].iter, 70),
+                       key='producer|%s:%s' % (modname, q))
+    chk.floor('C04.i', n, 3, '(constructors of api Completion objects)')
+    inner = repo.find(COMP, 'Completion._complete_code_lines')
+    ok = any(call_name(c) == 'complete' and isinstance(c.func, ast.Attribute) and call_name(c.func.value) == 'Completion' for c in calls_in(inner, nested=True))
+    chk.ob('C04.i', ok, inner, 'doctest completions come from a nested Completion.complete() (same guarantees)')
+
+
 def _parents(node, stop):
     p = getattr(node, '_parent', None)
     while p is not None and p is not stop:
@@ -301,4 +365,4 @@ def describe(chk):
                   'case-variant handling beyond the lower-casing of both sides')
 
 
-RULES = [('C04.a', rule_a), ('C04.b', rule_b), ('C04.c', rule_c), ('C04.d', rule_d), ('C04.e', rule_e), ('C04.f', rule_f), ('C04.g', rule_g), ('C04.h', rule_h)]
+RULES = [('C04.a', rule_a), ('C04.b', rule_b), ('C04.c', rule_c), ('C04.d', rule_d), ('C04.e', rule_e), ('C04.f', rule_f), ('C04.g', rule_g), ('C04.h', rule_h), ('C04.i', rule_i)]
